@@ -21,6 +21,14 @@ def repo_files(maxlen=40000):
     return out
 
 
+def multiline_grammar(rng):
+    """action code, string and raw-string literals and comments that span several indented lines"""
+    lit = rng.choice(['"usage:\n    tool <command>\n\ttabbed\n  two"', 'r#"raw\n      indented "quote"\n\tline"#', '"a\\\n        continued"', '"x"'])
+    body = rng.choice(["{\n        let s = %s;\n        s.len() as u32\n    }", "{\n        /* block\n           comment */\n        let t = %s; // trailing\n        t.len() as u32 }"]) % lit
+    return ('grammar;\nextern { type Location = usize; enum Tok { "a" => Tok::A, "b" => Tok::B } }\n'
+            'pub S: u32 = {\n    "a" => %s,\n    "b" <s:S> =>\n        s\n            + 1,\n};\n' % body)
+
+
 def generated(rng, n):
     out = []
     makers = [
@@ -32,6 +40,7 @@ def generated(rng, n):
         ("lane", lambda r: gmodel.grammar_text(gen3.gen_lane_stress(r))),
         ("lexer", lambda r: lexgen.gen_spec(r, match_p=0.7).grammar_text()),
     ]
+    makers.append(("multiline", multiline_grammar))
     i = 0
     while len(out) < n:
         name, mk = makers[i % len(makers)]
